@@ -279,6 +279,12 @@ LinkedImage(objs) ==
       doms == TLCEval([k \in 1..Len(objs) |-> CellAddrs(imgs[k])])
   IN UNION { { c \in imgs[k] : \A j \in (k+1)..Len(objs) : c[1] \notin doms[j] } : k \in 1..Len(objs) }
 
+\* the linker places every object at a base of its own choice: the images must not overlap, or the segments of
+\* one object are not in memory ("for each loadable segment, the file bytes at ... plus the base")
+ObjectsDisjoint(objs) ==
+  LET doms == TLCEval([k \in 1..Len(objs) |-> CellAddrs(ImageQ(objs[k].d, objs[k].base))])
+  IN \A j, k \in 1..Len(objs) : j < k => doms[j] \cap doms[k] = {}
+
 \* the four addresses of the word relocated by r
 RelocAddrs(objs, r) == { AddOff(AddA(r.off, objs[r.obj + 1].base), i) : i \in 0..3 }
 \* the word (4 byte limbs, least significant first) found in `cells` at relocation r, or <<>>
